@@ -26,7 +26,7 @@ if not os.path.isdir(wt):
 run("git -C %s checkout -q -- . " % wt)
 r2 = run("git -C %s checkout -q --detach %s" % (wt, head))
 r3 = run("git -C %s apply %s" % (wt, pf))
-res = {"head": head, "patch_applies": r2[0] == 0 and r3[0] == 0, "checks": {}}
+res = {"head": head, "verif_commit": run("git -C /verif rev-parse --short HEAD")[1].strip(), "patch_applies": r2[0] == 0 and r3[0] == 0, "checks": {}}
 if not res["patch_applies"]:
     res["apply_output"] = (r2[1] + r3[1])[-600:]
 else:
